@@ -207,15 +207,7 @@ class HPAngle(object):
         :param hp_angle: float HP angle
         """
         self.hp_angle = float(hp_angle)
-        hp_dec_str = f'{self.hp_angle:.17f}'.split('.')[1]
-        if int(hp_dec_str[0]) > 5:
-            raise ValueError(f'Invalid HP Notation: 1st decimal place greater '
-                             f'than 5: {self.hp_angle}')
-        if len(hp_dec_str) > 2:
-            if int(hp_dec_str[2]) > 5:
-                raise ValueError(
-                    f'Invalid HP Notation: 3rd decimal place greater '
-                    f'than 5: {self.hp_angle}')
+        _hp_fields(self.hp_angle)  # raises ValueError for invalid HP Notation
 
     def __repr__(self):
         if self.hp_angle >= 0:
@@ -1038,6 +1030,32 @@ def dec2ddm(dec):
 
 # Functions converting from Hewlett-Packard (HP) format to other formats
 
+def _hp_fields(hp):
+    """
+    Splits HP Notation into its degrees, minutes and seconds fields
+    :param hp: HP Notation (DDD.MMSSSS)
+    :type hp: float
+    :return: degrees (int), minutes (int), seconds (float), all unsigned
+    :raises ValueError: minutes or seconds field of 60 or more
+    """
+    # HP Notation is read to 13 decimal places (1e-9 seconds). From 512 degrees
+    # floats are spaced wider than that, so 12 places are read there.
+    places = 13 if abs(hp) < 512 else 12
+    hp_deg_str, hp_mmss_str = f'{abs(hp):.{places}f}'.split('.')
+    # Check if 1st and 3rd decimal place greater than 5 (invalid HP Notation)
+    if int(hp_mmss_str[0]) > 5:
+        raise ValueError(f'Invalid HP Notation: 1st decimal place greater '
+                         f'than 5: {hp}')
+    if int(hp_mmss_str[2]) > 5:
+        raise ValueError(f'Invalid HP Notation: 3rd decimal place greater '
+                         f'than 5: {hp}')
+    # parse string to avoid precision problems with floating point ops and base 10 numbers
+    deg = int(hp_deg_str)
+    min = int(hp_mmss_str[:2])
+    sec = float(hp_mmss_str[2:4] + '.' + hp_mmss_str[4:])
+    return deg, min, sec
+
+
 def hp2dec(hp):
     """
     Converts HP Notation to Decimal Degrees
@@ -1046,20 +1064,8 @@ def hp2dec(hp):
     :return: Decimal Degrees
     :rtype: float
     """
-    # Check if 1st and 3rd decimal place greater than 5 (invalid HP Notation)
     hp = float(hp)
-    hp_deg_str, hp_mmss_str = f'{hp:.13f}'.split('.')
-    if int(hp_mmss_str[0]) > 5:
-        raise ValueError(f'Invalid HP Notation: 1st decimal place greater '
-                         f'than 5: {hp}')
-    if len(hp_mmss_str) > 2:
-        if int(hp_mmss_str[2]) > 5:
-            raise ValueError(f'Invalid HP Notation: 3rd decimal place greater '
-                             f'than 5: {hp}')
-    # parse string to avoid precision problems with floating point ops and base 10 numbers
-    deg = abs(int(hp_deg_str))
-    min = int(hp_mmss_str[:2])
-    sec = float(hp_mmss_str[2:4] + '.' + hp_mmss_str[4:])
+    deg, min, sec = _hp_fields(hp)
     dec = sec / 3600 + min / 60 + deg
 
     return dec if hp >= 0 else -dec
